@@ -931,7 +931,7 @@ func genRuleC15(rg *rand.Rand) Rule {
 	for {
 		r := genRule(rg, false)
 		keys := map[string]string{}
-		ok := !OverLimit([]NetPol{{Types: "IE", Ingress: []Rule{{Peers: []Peer{{Kind: "ns"}}, Ports: r.Ports}}}})
+		ok := true
 		for _, p := range r.Peers {
 			if p.Kind != "ip" {
 				continue
